@@ -109,12 +109,23 @@ theorem Inv.awaitTaskStep {s : State} (hI : Inv s) {a b : Nat} {c : Option Nat} 
     intro q hq; have := (hI.cbOk q b hq).1; rw [hrb] at this; cases this
   simp only [awaitTask, hra, hrb] at h
   obtain ⟨noBad, noWrong, ctxOk, viaOk, awOk, newOk, cbOk, waitersOk, regOk, cbNodup, cbUniq, pcOk⟩ := hI
-  split at h
-  · first | (injection h with h; subst h) | subst h
-    unfold State.enter
-    constructor <;> (try simp only) <;> aw_grind
-  · first | (injection h with h; subst h) | subst h
-    constructor <;> (try simp only) <;> aw_grind
+  cases hfb : s.fex b with
+  | none =>
+    simp only [hfb] at h
+    split at h
+    · injection h with h; subst h
+      unfold State.enter
+      constructor <;> (try simp only) <;> aw_grind
+    · injection h with h; subst h
+      constructor <;> (try simp only) <;> aw_grind
+  | some e =>
+    simp only [hfb] at h
+    split at h
+    · injection h with h; subst h
+      unfold State.enter
+      constructor <;> (try simp only) <;> aw_grind
+    · injection h with h; subst h
+      constructor <;> (try simp only) <;> aw_grind
 
 set_option maxHeartbeats 8000000 in
 theorem Inv.finishStep {s : State} (hI : Inv s) {b v : Nat} {c : Option Nat} (hrb : s.fr b = .running c)
